@@ -416,3 +416,35 @@ PROPS["C29"] = dict(
             Stage("c29", pkg="mon_stark", variant="chk", kind="sharded", n=(800, 10000), timeout=(900, 3600)),
             Stage("c29", pkg="mon_stark", variant="par", kind="sharded", n=(800, 10000), timeout=(900, 3600), threads=5)],
 )
+
+PROPS["C22"] = dict(
+    level="exploration",
+    rule="random GenAir instances (trace length 2^3..2^8 (thorough 2^11), 3 base fields, base and quadratic constraint field) "
+         "with up to 24 non-overlapping single / periodic / sequence assertions (any first step and stride, sequences up to n/2 "
+         "values incl. >= 64) plus auxiliary assertions: for EVERY derived constraint and EVERY trace-domain point: "
+         "evaluate_at(g^s, asserted value) = 0 and (value + 1) != 0 on asserted steps; each group's divisor is zero exactly "
+         "on the group's steps (all n points tested) with degree = their number; groups ordered by (stride, first step), "
+         "constraints by column; coefficient k goes to the k-th assertion in that order; identical constraints for a "
+         "shuffled assertion list; proofs byte-identical for a reversed assertion list; distinct = instances",
+    assumptions=["the trace domain generator is the code's (its order is C11's subject)",
+                 "constraints are matched to assertions through the documented deterministic order (stride, first step, column)"],
+    floor=50,
+    stages=[Stage("c22", pkg="mon_stark", variant="rel", kind="sharded", n=(1500, 60000), timeout=(900, 3600)),
+            Stage("c22", pkg="mon_stark", variant="chk", kind="sharded", n=(300, 5000), timeout=(900, 3600))],
+)
+
+PROPS["C23"] = dict(
+    level="exploration",
+    rule="(1) ConstraintDivisor::from_transition(n, e) for n = 8..2^9 (thorough 2^11) and EVERY e <= n/2+1 for n <= 64 (7 values "
+         "above), 3 fields: degree n-e, vanishing numerator on the whole domain with exactly the last e points divided out, "
+         "value at random base and quadratic-extension points = prod_{s<n-e}(x-g^s) in reference arithmetic; (2) EVERY degree "
+         "declaration base 1..9 (16) x cycle multisets (all pairs of powers of two <= n, plus triples), n = 8..64 (256): "
+         "evaluation degree vs definition, min blowup vs documented formula and vs quotient degree; every context the "
+         "constructor and set_num_transition_exemptions accept (all e for n <= 32): columns*n >= composition degree + 1 and "
+         "evaluation domain > composition degree; (3) periodic column polynomials of 300 (6000) random GenAir instances "
+         "reproduce values[s mod c] at every step, cycles 2..n; distinct = (kind, parameters)",
+    assumptions=["whether the divisor polynomial vanishes at a domain point is read off its documented factored form "
+                 "(numerator x^n - 1, exemption list): evaluate_at itself is 0/0 at exempt points"],
+    floor=300,
+    stages=[Stage("c23", pkg="mon_stark", variant="rel"), Stage("c23", pkg="mon_stark", variant="chk", args=["--maxlogn", "7", "--n", "60"])],
+)
